@@ -154,6 +154,7 @@ class Oracle:
         kv = dict(x.split("=", 1) for x in op.split()[1:] if "=" in x)
         self.mtu = int(kv.get("mtu", 1500) or 1500)
         self.cc = kv.get("cc", "")
+        self.rcvbuf = int(kv.get("rcvbuf", 0) or 0)
         self.listening = False
         self.cookie = False
         self.hs = {}          # peer port -> handshake record (passive)
@@ -457,6 +458,12 @@ class Oracle:
                     bad.append("c04.ack-moved-backwards")
                 c.rcv_nxt = max(c.rcv_nxt, ra)
                 c.adv_wnd = s["wnd"] << c.my_ws
+                # C04: the advertised window follows the free receive buffer (it reopens when the application reads):
+                # it is never smaller than what is free, up to the truncation by the scale and the 16-bit field
+                if self.rcvbuf > 0 and c.peer_fin is None and not c.rcv_closed:
+                    free = max(0, self.rcvbuf - (ra - c.nread))
+                    if c.adv_wnd + (1 << c.my_ws) <= min(free, 65535 << c.my_ws):
+                        bad.append("c04.window-smaller-than-free-receive-buffer")
                 if c.peer_fin is not None and ra == c.peer_fin + 1:
                     c.rcv_closed = True
         if f is None or f.get("dropped") or not c.alive:
